@@ -88,7 +88,9 @@ func runD14(t *testing.T, c d14Cfg) {
 	}
 	ta := s.MustCreate(ti.GVR(), mk("ta", true, c.Finalize))
 	tn := s.MustCreate(ti.GVR(), mk("tn", false, false))
-	tf := s.MustCreate(ti.GVR(), mk("tf", false, true))
+	tfo := mk("tf", false, true)
+	sim.SetNested(tfo, "hold", "spec", "finalize") // its finalization does not finish during the test
+	tf := s.MustCreate(ti.GVR(), tfo)
 	if err := w.start(); err != nil {
 		inconclusive(t, "C14", id, err)
 		return
@@ -206,6 +208,8 @@ func runD14(t *testing.T, c d14Cfg) {
 	expect("attachment-delete(owned)", []string{ka}, func() { s.ExtDelete(ai.GVR(), ans, "a1-"+uid, "") })
 	expect("attachment-add(owner not selected)", none, func() { s.MustCreate(ai.GVR(), sim.AddOwner(att("a2"), s.Peek(ti.GVR(), ns, sim.Name(tn)), true)) })
 	expect("attachment-add(owner not selected,finalizer="+fmt.Sprint(len(wantF) > 0)+")", wantF, func() { s.MustCreate(ai.GVR(), sim.AddOwner(att("a3"), tf, true)) })
+	expect("attachment-update(owner not selected,finalizer="+fmt.Sprint(len(wantF) > 0)+")", wantF, touch(ai, ans, "a3-"+uid))
+	expect("attachment-delete(owner not selected,finalizer="+fmt.Sprint(len(wantF) > 0)+")", wantF, func() { s.ExtDelete(ai.GVR(), ans, "a3-"+uid, "") })
 	wrongUID := sim.DeepCopy(ta)
 	sim.SetNested(wrongUID, "other-uid", "metadata", "uid")
 	expect("attachment-add(owner-right-name-wrong-uid)", none, func() { s.MustCreate(ai.GVR(), sim.AddOwner(att("a4"), wrongUID, true)) })
@@ -288,5 +292,5 @@ func runD14(t *testing.T, c d14Cfg) {
 		inconclusive(t, "C14", id, w.watchdog)
 		return
 	}
-	rep.Case("C14", id, nev > 0, id, map[string]interface{}{"cfg": c, "events": nev, "asExpected": okev})
+	rep.Case("C14", id, nev > 0, id, map[string]interface{}{"cfg": c, "events": nev, "asExpected": okev, "unselectedTargetHoldsFinalizer": len(wantF) > 0})
 }
